@@ -4,8 +4,10 @@ import (
 	"context"
 	"fmt"
 	"os"
+	"os/signal"
 	"path/filepath"
 	"reflect"
+	"syscall"
 
 	"github.com/hashicorp/eventlogger"
 )
@@ -129,6 +131,71 @@ func RunDirRemoved() []Mismatch {
 			}
 		}
 		os.RemoveAll(root)
+	}
+	return mms
+}
+
+// RunWriteFault: a write fails (file size limit reached: EFBIG, nothing written) on a sink whose file already held
+// acknowledged events before this sink (re)opened it - after a Reopen, or a restart of the process. FileSink.tla:
+// WriteFail -> reopen -> WrRetry; whatever the recovery does, the files keep every acknowledged event, once, in order,
+// and nothing else. The limit is process-wide for the duration of one Process call; SIGXFSZ is ignored.
+func RunWriteFault() []Mismatch {
+	var mms []Mismatch
+	signal.Ignore(syscall.SIGXFSZ)
+	var old syscall.Rlimit
+	if err := syscall.Getrlimit(syscall.RLIMIT_FSIZE, &old); err != nil {
+		return nil
+	}
+	for _, how := range []string{"reopen", "restart"} {
+		dir, err := os.MkdirTemp("", "vh-fault-")
+		if err != nil {
+			return []Mismatch{{Props: []string{"HARNESS"}, What: err.Error()}}
+		}
+		mk := func() *eventlogger.FileSink {
+			return &eventlogger.FileSink{Path: dir, FileName: "sink.log", TimestampOnlyOnRotate: true}
+		}
+		fs := mk()
+		var acked []int
+		write := func(id int) error {
+			e := &eventlogger.Event{Type: "t", Formatted: map[string][]byte{}}
+			e.FormattedAs(eventlogger.JSONFormat, Token(id, 30))
+			_, err := fs.Process(context.Background(), e)
+			if err == nil {
+				acked = append(acked, id)
+			}
+			return err
+		}
+		write(1)
+		write(2)
+		if how == "reopen" {
+			fs.Reopen()
+		} else {
+			fs = mk() // a new process appending to the existing log
+		}
+		write(3)
+		st, err := os.Stat(filepath.Join(dir, "sink.log"))
+		if err != nil {
+			os.RemoveAll(dir)
+			continue
+		}
+		// the file cannot grow: the next write (and its retry) fails without writing anything
+		syscall.Setrlimit(syscall.RLIMIT_FSIZE, &syscall.Rlimit{Cur: uint64(st.Size()), Max: old.Max})
+		err4 := write(4)
+		syscall.Setrlimit(syscall.RLIMIT_FSIZE, &old)
+		write(5)
+		l := List(dir, nil)
+		var onDisk []int
+		for _, f := range l.Ts {
+			onDisk = append(onDisk, f...)
+		}
+		onDisk = append(onDisk, l.Act...)
+		cfg := "write fault after " + how
+		if l.Err != "" {
+			mms = append(mms, Mismatch{Props: []string{"C08"}, What: cfg + ": the files do not parse as whole events (torn / cut)", Expected: "whole events", Observed: l.Err})
+		} else if !reflect.DeepEqual(acked, onDisk) {
+			mms = append(mms, Mismatch{Props: []string{"C08"}, What: cfg + ": events in the files vs acknowledged events (write 4 under the size limit returned: " + fmt.Sprint(err4) + ")", Expected: acked, Observed: onDisk})
+		}
+		os.RemoveAll(dir)
 	}
 	return mms
 }
